@@ -21,12 +21,16 @@
 From Eino Require Import Base.Util Model.StreamAcct Model.StreamRun Model.StreamResume.
 Open Scope N_scope.
 
+(* the runs of one nested graph node: its graph, its interrupt configuration, START's pass of every run
+   (one per execution of the node) and the recorded calls of all its runs in order *)
+Record csub := { cs_graph : graph; cs_cfg : icfg; cs_starts : list batch; cs_tms : list seg }.
+
 Record ccase := {
   c_graph : graph;
   c_cfg : icfg;                          (* interruptBeforeNodes / interruptAfterNodes *)
-  c_segs : list (list batch);            (* the calls of the run (the first run and every resumed run), in order;
-                                            the first one starts with START's pseudo task *)
-  c_subs : list (graph * list batch);   (* the runs of the nested graphs, in order of their start *)
+  c_start : batch;                       (* START's pseudo task with the outcome of its branches *)
+  c_tms : list seg;                      (* the recorded calls of the run (the first run and every resumed run), in order *)
+  c_subs : list csub;                    (* the nested graph nodes *)
   c_copies : list Z;          (* observed, sorted ascending *)
   c_resolve_closes : nat;     (* observed *)
   c_update_closes : nat;
@@ -44,21 +48,20 @@ Record ccase := {
 
 Definition mkc (w c : list key) (bs : list bdecl) : call := {| c_write_to := w; c_controls := c; c_branches := bs |}.
 Definition mkbd (nodata : bool) (ends : list key) : bdecl := {| bd_nodata := nodata; bd_ends := ends |}.
-Definition mkSub (dag : bool) (calls : list (key * call)) (sched : list batch) : graph * list batch :=
-  ({| g_dag := dag; g_eager := false; g_calls := calls |}, sched).
+Definition mkseg (bs : list batch) (rr : list key) : seg := {| sg_b := bs; sg_rr := rr |}.
+Definition mkSubs (dag : bool) (calls : list (key * call)) (before after : list key)
+                  (starts : list batch) (tms : list seg) : csub :=
+  {| cs_graph := {| g_dag := dag; g_eager := false; g_calls := calls |};
+     cs_cfg := {| i_before := before; i_after := after |}; cs_starts := starts; cs_tms := tms |}.
 Definition mkRS (dag eager : bool) (calls : list (key * call)) (before after : list key)
-               (segs : list (list batch)) (subs : list (graph * list batch))
+               (start : batch) (tms : list seg) (subs : list csub)
                (cp : list Z) (rc uc cc sc : nat) (mg : list nat) (fired : list key)
                (handlers : nat) (sides : list (nat * nat)) (cbc : list Z) (drains closes : nat) : ccase :=
   {| c_graph := {| g_dag := dag; g_eager := eager; g_calls := calls |};
-     c_cfg := {| i_before := before; i_after := after |}; c_segs := segs; c_subs := subs;
+     c_cfg := {| i_before := before; i_after := after |}; c_start := start; c_tms := tms; c_subs := subs;
      c_copies := cp; c_resolve_closes := rc; c_update_closes := uc; c_chan_closes := cc; c_skip_closes := sc;
      c_merges := mg; c_fired := fired; c_handlers := handlers; c_cb_sides := sides; c_cb_copies := cbc;
      c_cp_drains := drains; c_input_closes := closes |}.
-Definition mkR (dag eager : bool) (calls : list (key * call)) (sched : list batch) (subs : list (graph * list batch))
-               (cp : list Z) (rc uc cc sc : nat) (mg : list nat) (fired : list key)
-               (handlers : nat) (sides : list (nat * nat)) (cbc : list Z) : ccase :=
-  mkRS dag eager calls [] [] [sched] subs cp rc uc cc sc mg fired handlers sides cbc 0 0.
 
 Fixpoint zlist_eqb (a b : list Z) : bool :=
   match a, b with
@@ -95,7 +98,12 @@ Definition predict (ts : list task) : res prediction :=
         p_update_closes := fold_right Nat.add 0%nat (map a_update_closes accts);
         p_balanced := forallb balanced accts |}.
 
-Definition all_runs (c : ccase) : list (graph * list batch) := (c_graph c, List.concat (c_segs c)) :: c_subs c.
+(* the tasks that were resolved: every collected task except those that interrupted themselves *)
+Definition resolved_of (tms : list seg) : batch :=
+  List.concat (map (fun tm => others_of (sg_rr tm) (List.concat (sg_b tm))) tms).
+Definition all_runs (c : ccase) : list (graph * list batch) :=
+  (c_graph c, [c_start c; resolved_of (c_tms c)]) ::
+  map (fun cs => (cs_graph cs, cs_starts cs ++ [resolved_of (cs_tms cs)])) (c_subs c).
 
 Definition bad_tasks (c : ccase) : bool :=
   match (do tss <- res_mapM (fun gs => tasks_of (fst gs) (snd gs)) (all_runs c); predict (List.concat tss)) with
@@ -106,36 +114,50 @@ Definition bad_tasks (c : ccase) : bool :=
   | _ => true
   end.
 
-(* ---- (b) the runs: the top-level run and the run of every nested graph execution *)
+(* ---- (b) the runs: the top-level run and the runs of every nested graph node *)
 Record rpred := {
   q_copies : list Z; q_resolve : nat; q_update : nat; q_chan : nat; q_skip : nat; q_merges : list nat;
   q_fired : list key; q_drains : nat; q_closes : nat;
+  q_calls : nat; (* calls of the runnable this run took *)
   q_ok : bool;   (* the hypotheses and the conclusion of the run theorems hold on this run *)
 }.
 
-Definition predict_run (g : graph) (cfg : icfg) (segs : list (list batch)) : res rpred :=
-  match run_int g cfg segs with
-  | Ok (SDone out dropped st) =>
+Definition pred_of (g : graph) (o : sout) (calls : nat) : res rpred :=
+  match o with
+  | SDone out dropped st =>
       let l := rs_log st in
       Ok {| q_copies := s_log (rs_store st); q_resolve := l_resolve_closes l; q_update := l_update_closes l;
             q_chan := l_chan_closes l; q_skip := l_skip_closes l; q_merges := l_merges l;
             q_fired := filter (fun k => negb (N.eqb k kEND)) (l_fired l);
-            q_drains := l_cp_drains l; q_closes := l_input_closes l;
+            q_drains := l_cp_drains l; q_closes := l_input_closes l; q_calls := calls;
             q_ok := nodup_keys (all_keys g) && negb (memb kEND (all_keys g)) && (negb (g_dag g) || covered g && all_reach g)
                     && match dropped with [] => true | _ => false end
                     && nlist_eqb (rs_pending st) [kEND]
                     && (negb (g_dag g) || all_finished g st)
                     && nlist_eqb (s_open (rs_store st)) [out] |}
-  | Ok _ => Err E_BAD_SCHEDULE
-  | Err e => Err e
-  | Panic => Panic
+  | _ => Err E_BAD_SCHEDULE
   end.
+
+Definition predict_top (c : ccase) : res rpred :=
+  do r <- run_one (c_graph c) (c_cfg c) (c_start c) (c_tms c);
+  let '(o, n, unused) := r in
+  match unused with
+  | [] => pred_of (c_graph c) o n
+  | _ :: _ => Err E_BAD_SCHEDULE
+  end.
+
+Definition predict_sub (cs : csub) : res (list rpred) :=
+  do l <- run_many (cs_graph cs) (cs_cfg cs) (cs_starts cs) (cs_tms cs);
+  res_mapM (fun on => pred_of (cs_graph cs) (fst on) (snd on)) l.
 
 Definition sumn (f : rpred -> nat) (l : list rpred) : nat := fold_right Nat.add 0%nat (map f l).
 
-Definition bad_run (c : ccase) : bool :=
-  match predict_run (c_graph c) (c_cfg c) (c_segs c), res_mapM (fun gs => predict_run (fst gs) icfg0 [snd gs]) (c_subs c) with
-  | Ok top, Ok subs =>
+Definition predict_all (c : ccase) : res (rpred * list rpred) :=
+  do top <- predict_top c;
+  do subs <- res_mapM predict_sub (c_subs c);
+  Ok (top, List.concat subs).
+
+Definition bad_run_of (c : ccase) (top : rpred) (subs : list rpred) : bool :=
       let all := top :: subs in
       negb (zlist_eqb (sort_by Z.ltb (flat_map q_copies all)) (c_copies c)
             && Nat.eqb (sumn q_resolve all) (c_resolve_closes c)
@@ -144,30 +166,33 @@ Definition bad_run (c : ccase) : bool :=
             && Nat.eqb (sumn q_skip all) (c_skip_closes c)
             && natlist_eqb (sort_by Nat.ltb (flat_map q_merges all)) (c_merges c)
             && nlist_eqb (sort_by N.ltb (q_fired top)) (c_fired c)
-            && Nat.eqb (q_drains top) (c_cp_drains c)
-            && Nat.eqb (q_closes top) (c_input_closes c)
-            && forallb q_ok all)
-  | _, _ => true
+            && Nat.eqb (sumn q_drains all) (c_cp_drains c)
+            && Nat.eqb (sumn q_closes all) (c_input_closes c)
+            && forallb q_ok all).
+
+(* ---- (c) callback copies: every call of a runnable (top level or nested) has a streaming callback site
+   at its start, the one that completes a run another one at its end (an interrupted call ends with
+   OnError); every node execution one per streaming side of its paradigm *)
+Definition bad_callbacks_of (c : ccase) (top : rpred) (subs : list rpred) : bool :=
+      let graph_sites := sumn (fun q => S (q_calls q)) (top :: subs) in
+      negb (zlist_eqb (sort_by Z.ltb (callback_copies (c_handlers c) graph_sites ++
+                                      flat_map (fun sn => callback_copies (snd sn) (fst sn)) (c_cb_sides c)))
+                      (c_cb_copies c)).
+
+Definition bad (c : ccase) : bool :=
+  bad_tasks c ||
+  match predict_all c with
+  | Ok (top, subs) => bad_run_of c top subs || bad_callbacks_of c top subs
+  | _ => true
   end.
-
-(* ---- (c) callback copies: every call of the top-level runnable has a streaming callback site at its
-   start, the one that completes another one at its end (an interrupted call ends with OnError); every
-   nested graph run has two; every lambda execution one per streaming side of its paradigm *)
-Definition bad_callbacks (c : ccase) : bool :=
-  let graph_sites := (List.length (c_segs c) + 1 + 2 * List.length (c_subs c))%nat in
-  negb (zlist_eqb (sort_by Z.ltb (callback_copies (c_handlers c) graph_sites ++
-                                  flat_map (fun sn => callback_copies (snd sn) (fst sn)) (c_cb_sides c)))
-                  (c_cb_copies c)).
-
-Definition bad (c : ccase) : bool := bad_tasks c || bad_run c || bad_callbacks c.
 Definition mismatches (cs : list ccase) : list nat := mismatches_from bad 0 cs.
 
 (* for debugging a replay: what the run model computed *)
 Definition run_view (c : ccase) :=
-  match run_int (c_graph c) (c_cfg c) (c_segs c) with
-  | Ok (SDone out dropped st) => Ok (1%nat, out, dropped, s_open (rs_store st), s_log (rs_store st), rs_log st, rs_pending st, rs_resolved st)
-  | Ok (SRunning st) => Ok (0%nat, 0, [], s_open (rs_store st), s_log (rs_store st), rs_log st, rs_pending st, rs_resolved st)
-  | Ok (SInt ready st) => Ok (2%nat, 0, ready, s_open (rs_store st), s_log (rs_store st), rs_log st, rs_pending st, rs_resolved st)
+  match run_one (c_graph c) (c_cfg c) (c_start c) (c_tms c) with
+  | Ok (SDone out dropped st, n, u) => Ok (1%nat, n, List.length u, out, dropped, s_open (rs_store st), s_log (rs_store st), rs_log st, rs_pending st, rs_resolved st)
+  | Ok (SRunning st, n, u) => Ok (0%nat, n, List.length u, 0, [], s_open (rs_store st), s_log (rs_store st), rs_log st, rs_pending st, rs_resolved st)
+  | Ok (SInt ready rr st, n, u) => Ok (2%nat, n, List.length u, 0, ready, s_open (rs_store st), s_log (rs_store st), rs_log st, rs_pending st, rs_resolved st)
   | Err e => Err e
   | Panic => Panic
   end.
